@@ -80,6 +80,12 @@ class WarmUp(BaseEvent):
 ET = [E0, E1, E2, E3]
 
 
+def bus_name(sc, i) -> str:
+    """name of bus i: 'B<i>' unless the scenario supplies names (e.g. names that contain each other)"""
+    names = sc.get('names')
+    return names[i] if names else f'B{i}'
+
+
 class HarnessError(Exception):
     pass
 
@@ -192,6 +198,7 @@ class World:
         self.maxdepth = int(sc.get('maxdepth', 3))
         self._in_watch = False
         self.finished = False
+        self.payload_of: dict = {}
         self.accepted: set = set()
 
     # -- trace
@@ -226,6 +233,7 @@ class World:
             kw['event_parent_id'] = self.events[self.roots[0]].event_id
         pl = flags.get('pl')
         if pl is not None and self.sc.get('payloads'):
+            self.payload_of[tag] = pl % len(self.sc['payloads'])
             p = self.sc['payloads'][pl % len(self.sc['payloads'])]
             for k, v in p.items():
                 kw[k] = datetime.datetime.fromisoformat(v) if k == 'when' and isinstance(v, str) else v
@@ -342,11 +350,11 @@ class World:
 
 def _bus_of_running(w: World, hspec, ev, hname, hi) -> str:
     """Which bus is running this handler invocation (only ambiguous for a function registered on two buses)."""
-    b1 = f'B{hspec["bus"]}'
+    b1 = bus_name(w.sc, hspec['bus'])
     if hspec.get('bus2') is None:
         return b1
     cur = _CUR_BUS.get()
-    if cur in (b1, f'B{hspec["bus2"]}'):
+    if cur in (b1, bus_name(w.sc, hspec['bus2'])):
         return cur
     started = [r.eventbus_name for r in ev.event_results.values() if r.handler_name.split('.')[-1] == hname and r.status == 'started']
     already = {m[0] for m in w.running if m[1] == ev.tag and m[2] == hi}
@@ -394,7 +402,7 @@ def make_handler(w: World, hi: int, hspec: dict):
         t = min(ev.depth + 1, len(ET) - 1) if typ == 'n' else int(typ)
         tag, child = w.new_event(t, ev.depth + 1, flags)
         w.parent[tag] = tuple(me)
-        rec = w.rec('disp', by=list(me), ev=tag, bus=f'B{tb}', mode=mode, xp=(flags or {}).get('xp'))
+        rec = w.rec('disp', by=list(me), ev=tag, bus=bus_name(w.sc, tb), mode=mode, xp=(flags or {}).get('xp'))
         try:
             got = w.buses[tb].dispatch(child)
         except Exception as ex:  # rejected dispatch
@@ -655,7 +663,7 @@ async def run_actor(w: World, ai: int, ops: list):
                 w.ndisp += 1
                 tag, e = w.new_event(int(op[2]), 0, flags)
                 w.parent[tag] = ('A', ai)
-                rec = w.rec('disp', by=who, ev=tag, bus=f'B{op[1]}', xp=flags.get('xp'))
+                rec = w.rec('disp', by=who, ev=tag, bus=bus_name(w.sc, op[1]), xp=flags.get('xp'))
                 try:
                     got = w.buses[op[1]].dispatch(e)
                     rec['ok'] = True
@@ -670,7 +678,7 @@ async def run_actor(w: World, ai: int, ops: list):
                 continue
             tag = w.roots[op[1] % len(w.roots)]
             e = w.events[tag]
-            rec = w.rec('redisp', by=who, ev=tag, bus=f'B{op[2]}', was_complete=w.is_complete(e), status=e.event_status)
+            rec = w.rec('redisp', by=who, ev=tag, bus=bus_name(w.sc, op[2]), was_complete=w.is_complete(e), status=e.event_status)
             try:
                 w.buses[op[2]].dispatch(e)
                 rec['ok'] = True
@@ -758,7 +766,7 @@ async def run_actor(w: World, ai: int, ops: list):
 def _bus_helpers(cls):
     def bus_unfinished(self, bi):
         """harness view: (event tag) accepted on bus bi whose handlers on that bus have not all exited / not yet entered"""
-        name = f'B{bi}'
+        name = bus_name(self.sc, bi)
         acc = [r['ev'] for r in self.trace if r['k'] == 'enq-ok' and r['bus'] == name]
         out = []
         for tag in dict.fromkeys(acc):
@@ -773,7 +781,7 @@ def _bus_helpers(cls):
         return bool(self.bus_unfinished(bi))
 
     def bus_started(self, bi):
-        name = f'B{bi}'
+        name = bus_name(self.sc, bi)
         return any(r['k'] == 'enq-ok' and r['bus'] == name for r in self.trace)
 
     def expected_handlers(self, bi, tag):
@@ -867,7 +875,7 @@ def run_scenario(sc: dict, *, keep_world: bool = False, spin_budget: int = 60_00
             bus = bus_cls.__new__(bus_cls)  # rank is needed by __hash__ during __init__ (WeakSet add)
             bus._bvt_rank = int(b.get('rank', i + 1))
             bus._bvt_world = w
-            bus.__init__(name=f'B{i}', parallel_handlers=bool(b.get('par')), max_history_size=b.get('hist'), **kw)
+            bus.__init__(name=bus_name(sc, i), parallel_handlers=bool(b.get('par')), max_history_size=b.get('hist'), **kw)
             w.buses.append(bus)
         for src, dst, pat in sc.get('fwd', []):
             w.buses[src].on(pattern_of(pat), w.buses[dst].dispatch)
@@ -949,6 +957,7 @@ def run_scenario(sc: dict, *, keep_world: bool = False, spin_budget: int = 60_00
     out['parent'] = {t: (list(p) if isinstance(p, tuple) else p) for t, p in w.parent.items()}
     out['children'] = {t: list(c) for t, c in w.children.items()}
     out['ndisp'] = w.ndisp
+    out['payload_of'] = dict(w.payload_of)
     out['observed_complete'] = {t: {'at': v['at'], 'how': v['how']} for t, v in w.observed_complete.items()}
     if wal_ctx is not None:
         out['wal'] = wal_ctx.result
